@@ -549,5 +549,18 @@ def build(repo, template_path, canary=False) -> SpliceResult:
             rules['X6-fields'] = rules.get('X6-fields', 0) + 1
             i += 1
             continue
+        if d == 'assert_text':
+            # environment constant checked syntactically: the real item's text (X3 applied, whitespace-normalised)
+            # must equal the text after `text=`; otherwise the unit is undecided (anchor-lost), never an alarm
+            want = rest.split('text=', 1)[1].strip()
+            lines, lm, info = copy_item(repo, kv['file'], kv['item'], opts, {}, int(kv.get('nth', 0)))
+            got = ' '.join(' '.join(lines).split())
+            if got != ' '.join(want.split()):
+                raise AnchorLost('assert_text: %s in %s is now `%s`, the unit assumes `%s`' % (kv['item'], kv['file'], got, want))
+            out.append('// @checked %s:%d `%s`' % (info['file'], info['line_start'], got))
+            lmap.append(None)
+            rules['X6-const-checked'] = rules.get('X6-const-checked', 0) + 1
+            i += 1
+            continue
         raise AnchorLost('template: unknown directive //@%s (line %d)' % (d, i + 1))
     return SpliceResult('\n'.join(out), lmap, functions, rules, dropped, canary_points)
